@@ -177,9 +177,6 @@ func runStackOps(kind string, ops []string) (res stackRun) {
 		if res.bad < 0 && ints(ch) != ints(ref) {
 			res.bad, res.what = k, fmt.Sprintf("chain [%s], the list is [%s]", ints(ch), ints(ref))
 		}
-		if res.bad < 0 && s.state() != [3]int{}[0] && false {
-			_ = i
-		}
 	}
 	res.answer = strings.Join(parts, ";")
 	return
